@@ -31,6 +31,10 @@ type menuOpts struct {
 	sysFlavours bool
 	// undisciplined adds role messages the system contract's own discipline (A7) excludes
 	undisciplined bool
+	// repeatControls adds the controls that repeat the state in force (un-freeze of an account that
+	// is not frozen, freeze of a frozen one, un-pause of a token that is not paused, pause of a
+	// paused one): they are accepted and must leave the flag as the control says
+	repeatControls bool
 	// nftFreeze adds ESDTFreeze / ESDTUnFreeze of a single NFT holding (argument token||nonce, the
 	// entry whose own flag the NFT functions read), for holdings that exist
 	nftFreeze bool
@@ -260,6 +264,25 @@ func freezeMenu(w *world.World, o menuOpts, withWipe bool) []world.Action {
 	}
 	if o.nftFreeze {
 		acts = append(acts, nftFreezeMenu(w, accts)...)
+	}
+	if o.repeatControls {
+		for _, a := range [][]byte{uni.B0, uni.C1} {
+			if o.shards < 2 && string(a) == string(uni.C1) {
+				continue
+			}
+			if spec.Frozen(w.Get(a), tF) {
+				acts = append(acts, uni.SysCall(a, vmcommon.BuiltInFunctionESDTFreeze, uni.F))
+			} else {
+				acts = append(acts, uni.SysCall(a, vmcommon.BuiltInFunctionESDTUnFreeze, uni.F))
+			}
+		}
+		for sh := 0; sh < o.shards; sh++ {
+			fn := vmcommon.BuiltInFunctionESDTUnPause
+			if spec.Paused(w, uint32(sh), tF) {
+				fn = vmcommon.BuiltInFunctionESDTPause
+			}
+			acts = append(acts, uni.PauseCall(sh, fn, uni.F))
+		}
 	}
 	for sh := 0; sh < o.shards; sh++ {
 		for _, tok := range [][]byte{uni.F, uni.S} {
